@@ -94,6 +94,10 @@ pub fn main(args: &[String]) {
             let r = crate::vm::draw_composite(&font, 0);
             println!("depth {depth} fan {fan}: {r:?} in {:?}", t.elapsed());
         }
+        Some("repro") => {
+            repro(&arg_after(args, "--font").unwrap(), arg_after(args, "--pos").unwrap().parse().unwrap(), arg_after(args, "--val").unwrap().parse().unwrap(), 1);
+            std::process::exit(0);
+        }
         Some("mem") => {
             // MemCarve.tla family on real glyphs: hinted and unhinted draws with caller memory
             use font_types::GlyphId;
@@ -253,4 +257,22 @@ pub fn main(args: &[String]) {
     rep.traces = ev.len() as u64;
     fvcore::write_ndjson(&outp, &ev);
     rep.finish();
+}
+
+/// one-off reproduction helper: drive one corpus font with one byte changed
+pub fn repro(name: &str, pos: usize, val: u8, level: u8) {
+    for (n, mut b) in corpus(4_000_000) {
+        if n == name {
+            if pos < b.len() {
+                b[pos] = val;
+            }
+            let t = std::time::Instant::now();
+            let r = match drive_bytes(&b, level, 120) {
+                Verdict::Done { calls, .. } => format!("value ({calls} calls)"),
+                Verdict::Panic(p) => format!("panic: {p}"),
+                Verdict::Hang => "no result within 120 s".to_string(),
+            };
+            println!("{name} byte {pos} = {val}: {r} in {:?}", t.elapsed());
+        }
+    }
 }
